@@ -529,6 +529,7 @@ func (c *cmafIngester) sendMediaSegments(ctx context.Context, nextSegNr, nowMS i
 		atoMS := int(c.cfg.getAvailabilityTimeOffsetS() * 1000)
 		for idx, rd := range c.repsData {
 			var se segEntries
+			subsFromRef := false
 			// The first representation is used as reference for generating timeline entries
 			if idx == 0 {
 				refSegEntries = c.asset.generateTimelineEntries(rd.repID, wTimes, atoMS)
@@ -536,6 +537,12 @@ func (c *cmafIngester) sendMediaSegments(ctx context.Context, nextSegNr, nowMS i
 			} else {
 				switch rd.contentType {
 				case "video", "text", "image":
+					if _, ok := c.asset.Reps[rd.repID]; !ok {
+						// Generated subtitles have no representation of their own: they follow the reference timeline
+						se = refSegEntries
+						subsFromRef = true
+						break
+					}
 					se = c.asset.generateTimelineEntries(rd.repID, wTimes, atoMS)
 				case "audio":
 					se = c.asset.generateTimelineEntriesFromRef(refSegEntries, rd.repID)
@@ -544,6 +551,9 @@ func (c *cmafIngester) sendMediaSegments(ctx context.Context, nextSegNr, nowMS i
 				}
 			}
 			segTime := int(se.lastTime())
+			if subsFromRef {
+				segTime = int(rep2SubsTime(se.lastTime(), int(se.mediaTimescale)))
+			}
 			segPart = replaceTimeOrNr(rd.mediaPattern, segTime)
 			segPath := fmt.Sprintf("%s/%d%s", rd.repID, segTime, rd.extension)
 			if c.streamsURLs {
